@@ -69,6 +69,51 @@ def validate(ctx, events, name):
     return ok, matched, first, classes, drift, counts
 
 
+def apalache_lemma(ctx):
+    """Thorough tier only: the unbounded lemma of the *specification* (SlotTimeApa.tla) for the four real genesis
+    records and every slot below 2^40, discharged by Apalache (SMT).  Extra evidence; a tool failure or timeout is
+    recorded as "not discharged" and never fails the check."""
+    import shutil
+    import subprocess
+    import time
+    invs = {"mainnet": "LemmaMainnet", "testnet": "LemmaTestnet", "preview": "LemmaPreview", "preprod": "LemmaPreprod",
+            "negative-control(mainnet, remainder modulo seconds; must be violated)": "NegControlMainnet"}
+    res = {}
+    if not shutil.which("apalache-mc"):
+        return {k: {"result": "not discharged", "why": "apalache-mc not installed"} for k in invs}
+    procs = {}
+    for name, inv in invs.items():
+        d = ctx.path("apalache_" + inv)
+        os.makedirs(d, exist_ok=True)
+        cmd = ["timeout", "900", "apalache-mc", "check", "--length=0", "--inv=" + inv, "--out-dir=" + d, "--run-dir=" + os.path.join(d, "run"),
+               "SlotTimeApa.tla"]
+        try:
+            procs[name] = (time.time(), inv, subprocess.Popen(cmd, cwd=os.path.join(vlib.SPEC, SPEC_DIR), stdout=subprocess.PIPE,
+                                                              stderr=subprocess.STDOUT, text=True))
+        except OSError as e:
+            res[name] = {"result": "not discharged", "why": str(e)}
+    for name, (t0, inv, pr) in procs.items():
+        out = pr.communicate()[0]
+        wall = round(time.time() - t0, 1)
+        open(ctx.path("apalache_%s.out" % inv), "w").write(out)
+        if "EXITCODE: OK" in out and "The outcome is: NoError" in out:
+            r = "holds for all 0 <= slot < 2^40"
+        elif "EXITCODE: ERROR (12)" in out:
+            r = "violated"
+            cex = os.path.join(ctx.path("apalache_" + inv), "run", "violation1.tla")
+            if os.path.exists(cex):
+                m = re.search(r"State0 == slot = (\d+)", open(cex).read())
+                if m:
+                    r = "violated at slot %s" % m.group(1)
+        else:
+            r = "not discharged"
+        res[name] = {"invariant": inv, "result": r, "wall_s": wall}
+        if r == "not discharged":
+            res[name]["why"] = "timeout (900 s)" if pr.returncode == 124 else "apalache exit code %s: %s" % (pr.returncode, out.strip().splitlines()[-1][:200] if out.strip() else "")
+        ctx.log("apalache %s: %s (%.0fs)" % (inv, r, wall))
+    return res
+
+
 def run(ctx):
     binary = ctx.build("pv-traverse")
     ctx.assume("epoch lengths are configured in seconds and divide into whole slots; the fork is on a Byron epoch "
@@ -161,9 +206,24 @@ def run(ctx):
         ok3, m3, _, _, _, _ = validate(ctx, c3, "selftest_drop.ndjson")
         ctx.selftest("drop rel event %d" % (idx + 1), (not ok3) and m3 == idx)
 
+    extra = None
+    if ctx.thorough:
+        lemma = apalache_lemma(ctx)
+        extra = {"apalache_lemma": lemma}
+        nets = [k for k in lemma if not k.startswith("negative")]
+        neg = [k for k in lemma if k.startswith("negative")][0]
+        bad = [k for k in nets if lemma[k]["result"].startswith("violated")]
+        if bad:
+            raise vlib.ToolError("the specification's own lemma is violated for %s (SlotTimeApa.tla): the spec is wrong" % bad)
+        undone = [k for k in nets if lemma[k]["result"] == "not discharged"]
+        if undone:
+            ctx.notes.append("Apalache lemma not discharged for %s: %s" % (undone, [lemma[k].get("why") for k in undone]))
+        if lemma[neg]["result"] == "holds for all 0 <= slot < 2^40":
+            ctx.notes.append("Apalache negative control was NOT violated: the lemma runs are not trustworthy")
+
     return ctx.finish(
         rule="MC: every slot 0..%d of 128 scaled-down genesis records (laws of the spec, BigNat twins); M1: the same "
              "(record, slot) grid replayed into real GenesisValues (drift only); M3: mainnet/testnet/preview/preprod, "
              "slots around every epoch/era boundary, powers of two and seeded random slots below 2^40, every call "
              "validated by TraceSlotTime (sub < epoch size of the era, round trip, clock step)" % max_slot,
-        exhaustive=False)
+        exhaustive=False, extra=extra)
